@@ -86,6 +86,7 @@ RECURSIVE NodeOK(_, _, _)
 NodeOK(n, t, isRoot) ==
     /\ Len(n[1]) <= 2 * t - 1                          \* maximum occupancy
     /\ isRoot \/ Len(n[1]) >= t - 1                    \* minimum occupancy (non-root)
+    /\ IsLeaf(n) \/ Len(n[1]) >= 1                     \* an internal node - the root included - holds a key
     /\ IsLeaf(n) \/ Len(n[2]) = Len(n[1]) + 1          \* k keys, k+1 children
     /\ \A i \in 1..Len(n[2]) : NodeOK(n[2][i], t, FALSE)
 RECURSIVE LeavesAt(_, _)
@@ -103,10 +104,10 @@ WellFormed(shape, t) ==
     /\ NodeOK(shape, t, TRUE)
     /\ LeavesAt(shape, Height(shape))                  \* all leaves at one depth
     /\ StrictlyIncreasing(Flat(shape))                 \* search-tree order
-(* the stricter textbook reading: a non-empty tree has a non-empty root.  The
-   implementation leaves a key-less root over a single child after the delete of an
-   ABSENT key that merged the root's last two children; harmless, collapses at the next
-   successful delete.  Reported as an observation, not a hard clause. *)
+(* Root occupancy: a leaf root holds 0..2t-1 keys, an internal root 1..2t-1 (so it has at
+   least two children).  The pinned tree violated this (finding F35): deleting a MISSING
+   key, or an exact delete that raises, can merge the root's last two children on the way
+   down, and the emptied root was collapsed only when an element had been removed. *)
 RootNonEmpty(shape) == IsLeaf(shape) \/ Len(shape[1]) >= 1
 
 ---------------------------------------------------------------------------
